@@ -169,7 +169,7 @@ func checkResolve(c *fw.Ctx) {
 		for _, call := range fw.CallsTo(pub, false, fw.NameIs("gmsl/fclient.resolveServer")) {
 			ok = fw.Sig(call.Common().Args[2]) == "true"
 		}
-		c.Check(ok, rule, "ResolveServer starts with the well-known lookup enabled", c.P.Pos(pub.Pos()), "", "")
+		c.Expect(ok, rule, "ResolveServer starts with the well-known lookup enabled", c.P.Pos(pub.Pos()), "", "no call resolveServer(_, _, true) was recognised in ResolveServer")
 	}
 	// actions
 	type action struct{ what, atoms string }
@@ -234,14 +234,18 @@ func checkResolve(c *fw.Ctx) {
 			ip := strings.Contains(at, ",IPLITERAL")
 			switch field {
 			case "Host":
-				c.Check(v == "param:serverName", rule, fmt.Sprintf("Host header (%s) is the server name", pick(ip, "IP literal", "explicit port")), c.P.Pos(fw.InstrPos(st)), v, "Host = "+v)
+				judge3(c, rule, fmt.Sprintf("Host header (%s) is the server name", pick(ip, "IP literal", "explicit port")), c.P.Pos(fw.InstrPos(st)), "Host = "+v,
+					v == "param:serverName", strings.Contains(v, host) || strings.Contains(v, ".Target") || strings.Contains(v, ".NewAddress"))
 			case "TLSServerName":
-				c.Check(strings.Contains(v, host), rule, fmt.Sprintf("TLS name (%s) is the host part", pick(ip, "IP literal", "explicit port")), c.P.Pos(fw.InstrPos(st)), "", "TLSServerName = "+v)
+				judge3(c, rule, fmt.Sprintf("TLS name (%s) is the host part", pick(ip, "IP literal", "explicit port")), c.P.Pos(fw.InstrPos(st)), "TLSServerName = "+v,
+					strings.Contains(v, host), v == "param:serverName" || strings.Contains(v, ".Target"))
 			case "Destination":
 				if ip {
-					c.Check(strings.HasPrefix(v, "phi(net.JoinHostPort(") && strings.Contains(v, "strconv.Itoa(8448))|param:serverName)"), rule, "IP literal: destination is the literal with its port or 8448", c.P.Pos(fw.InstrPos(st)), "", "Destination = "+v)
+					judge3(c, rule, "IP literal: destination is the literal with its port or 8448", c.P.Pos(fw.InstrPos(st)), "Destination = "+v,
+						strings.HasPrefix(v, "phi(net.JoinHostPort(") && strings.Contains(v, "strconv.Itoa(8448))|param:serverName)"), strings.Contains(v, "net.JoinHostPort(") && !strings.Contains(v, "8448"))
 				} else {
-					c.Check(v == "param:serverName", rule, "explicit port: destination is the name as given", c.P.Pos(fw.InstrPos(st)), v, "Destination = "+v)
+					judge3(c, rule, "explicit port: destination is the name as given", c.P.Pos(fw.InstrPos(st)), "Destination = "+v,
+						v == "param:serverName", strings.Contains(v, "8448") || strings.Contains(v, ".Target"))
 				}
 			}
 		}
@@ -303,9 +307,9 @@ func checkSRV(c *fw.Ctx) {
 				srv := strings.Contains(condsOf(b), "gmsl/fclient.lookupSRV(") && !strings.Contains(a, "[1]gmsl") || strings.Contains(v, ".Target") || strings.Contains(v, ".Port")
 				switch field {
 				case "Host":
-					c.Check(v == "param:serverName", rule, "SRV / fallback: Host header is the server name", c.P.Pos(fw.InstrPos(st)), v, "Host = "+v)
+					judge3(c, rule, "SRV / fallback: Host header is the server name", c.P.Pos(fw.InstrPos(st)), "Host = "+v, v == "param:serverName", strings.Contains(v, ".Target") || strings.Contains(v, "8448"))
 				case "TLSServerName":
-					c.Check(v == "param:serverName", rule, "SRV / fallback: TLS name is the server name", c.P.Pos(fw.InstrPos(st)), v, "TLSServerName = "+v)
+					judge3(c, rule, "SRV / fallback: TLS name is the server name", c.P.Pos(fw.InstrPos(st)), "TLSServerName = "+v, v == "param:serverName", strings.Contains(v, ".Target") || strings.Contains(v, "8448"))
 				case "Destination":
 					if strings.Contains(v, "8448") {
 						c.Ok(rule, "fallback destination is name:8448", c.P.Pos(fw.InstrPos(st)), v)
@@ -404,11 +408,14 @@ func checkWellKnown(c *fw.Ctx) {
 			okLimit = true
 		}
 	}
-	c.Check(okLimit, rule, "the body is read through a LimitedReader of WellKnownMaxSize", c.P.Pos(fn.Pos()), "", "no io.LimitedReader{N: WellKnownMaxSize}")
+	c.Expect(okLimit, rule, "the body is read through a LimitedReader of WellKnownMaxSize", c.P.Pos(fn.Pos()), "", "no io.LimitedReader{N: WellKnownMaxSize} / io.LimitReader(_, WellKnownMaxSize) was recognised (the rule below reports a read of the raw body)")
 	for _, dc := range deepCallsTo(fn, fw.NameIs("io.ReadAll")) {
 		call := dc.Call
 		s := fw.Sig(call.Common().Args[0])
-		c.Check(strings.Contains(s, "io.LimitedReader") || (strings.HasPrefix(s, "io.LimitReader(") && strings.HasSuffix(s, ",51200)")), rule, "only the limited reader is read", c.P.Pos(call.Pos()), "", "ReadAll on "+s)
+		s = fw.SigIn(dc.Fr, call.Common().Args[0])
+		judge3(c, rule, "only the limited reader is read", c.P.Pos(call.Pos()), "ReadAll on "+s,
+			strings.Contains(s, "io.LimitedReader") || (strings.HasPrefix(s, "io.LimitReader(") && strings.HasSuffix(s, ",51200)")),
+			strings.HasSuffix(s, ".Body") && !strings.Contains(s, "Limit"))
 	}
 	// the max-age directive is recognised whatever optional whitespace surrounds it ("public, max-age=60")
 	nEq := 0
@@ -921,4 +928,18 @@ func checkResolvedNameIsOriginal(c *fw.Ctx, rule string, fn *ssa.Function) {
 		}
 	}
 	c.Ok(rule, construct, c.P.Pos(fw.InstrPos(loads[0].ins)), fmt.Sprintf("%d read(s), %d rewrite(s); no rewrite reaches a read", len(loads), len(stores)))
+}
+
+
+// judge3: a three-valued verdict for a rendered value: ok as expected, wrong when it is
+// positively one of the known wrong quantities, otherwise not decided.
+func judge3(c *fw.Ctx, rule, construct, pos, detail string, ok, wrong bool) {
+	switch {
+	case ok:
+		c.Ok(rule, construct, pos, detail)
+	case wrong:
+		c.Fail(rule, construct, pos, detail)
+	default:
+		c.Undecided(rule, construct, detail+" (a rendering the rule does not know)")
+	}
 }
